@@ -104,6 +104,23 @@ def check(rep, ctx):
                       message=f"{case}: slot {name} is {show_term(t)[:200]}, expected the millisecond timestamp of "
                               f"{'the first record' if name == 'base_timestamp' else 'the maximum over all records'}",
                       file=file, line=fn.node.lineno, instance=f"{case}|{name}")
+            if name == "max_timestamp" and t is not None:
+                # the maximum must be taken over instants (millisecond integers): max() over aware datetimes that share a tzinfo
+                # object compares wall-clock fields and ignores `fold` (PEP 495), which is not the order of the instants
+                def max_args(x, acc):
+                    if isinstance(x, tuple):
+                        if x[:1] == ("max",) and len(x) > 1:
+                            acc.append(x[1])
+                        for y in x:
+                            max_args(y, acc)
+                    return acc
+                over_dt = [a for a in max_args(t, []) if isinstance(a, tuple) and a[:1] == ("repeat",) and
+                           any(e == ("attr", ("elem", records), "timestamp") for e in (a[2] if len(a) > 2 and isinstance(a[2], tuple) else ()))]
+                rep.check(R_P, not over_dt, construct=fn.ref, stmt="max(record.timestamp for record in records)",
+                          message=f"{case}: maxTimestamp is the conversion of max() over the records' datetime objects: datetimes sharing one tzinfo "
+                                  f"are compared by wall clock, ignoring fold -- for 02:30 (fold=0) and 02:10 (fold=1) Europe/Stockholm on "
+                                  f"2021-10-31 the earlier instant wins; the maximum must be taken over the millisecond values",
+                          file=file, line=fn.node.lineno, instance=f"{case}|max-order")
             if t is not None:
                 time_terms.append((name, t, fn))
         # framing
